@@ -58,11 +58,11 @@ def specs(rng, tier, wid, nw, env):
     k = 0
     fd = th.get('FAC_DSC_THRESHOLD', 898)
     ns = (sorted(set(range(0, 130)) | set(rng.sample(range(130, 3001), 150)) | set(gen.around([fd, 2 * fd, 20, 21, 25, 26, 33, 34, 65, 66], 0)) | set(gen.ladder(3000, 60000, 1.7)))
-          if q else sorted(set(range(0, 3001)) | set(gen.ladder(3000, 2000000, 1.25))))
+          if q else sorted(set(range(0, 3001)) | set(gen.ladder(3000, 300000, 1.3))))
     for n in reversed(ns):
         k += 1
         if k % nw == wid: yield ('fac', n, rng.getrandbits(48))
-    tri = [(n, kk) for n in range(0, 601) for kk in range(0, n + 1)]
+    tri = [(n, kk) for n in range(0, 401) for kk in range(0, n + 1)]
     if q: tri = rng.sample(tri, 1500) + [(n, kk) for n in range(0, 40) for kk in range(0, n + 1)]
     # random points inside each algorithm region of mpz_bin_uiui (Goetgheluck: k > 1000 and k > n/16; bdiv: 70 < k <= n/16; smallkdc: 26..70; smallk: <= 25)
     rpts = []
@@ -76,7 +76,7 @@ def specs(rng, tier, wid, nw, env):
     for (n, kk) in tri + binregions(rng, q) + rpts:
         k += 1
         if k % nw == wid: yield ('bin', n, kk, 0)
-    fs = sorted(set(range(0, 400 if q else 5001)) | set(gen.ladder(400, 200000 if q else 3000000, 1.5 if q else 1.2)))
+    fs = sorted(set(range(0, 400 if q else 5001)) | set(gen.ladder(400, 200000 if q else 1000000, 1.5 if q else 1.25)))
     for n in reversed(fs):
         k += 1
         if k % nw == wid: yield ('fib', n, 0)
@@ -88,10 +88,10 @@ def specs(rng, tier, wid, nw, env):
         k += 1
         if k % nw == wid: yield ('prime', n, 'pseudo', rng.getrandbits(32))
     for c in (2 ** 31, 2 ** 32, 2 ** 53, 2 ** 64, 10 ** 6, 2 ** 63, 10 ** 9, 2 ** 48, 1000 ** 2, 1009 ** 2):
-        for d in range(-64 if q else -4096, 65 if q else 4097):
+        for d in range(-64 if q else -1500, 65 if q else 1501):
             k += 1
             if k % nw == wid and c + d >= 0: yield ('prime', c + d, 'near', rng.getrandbits(32))
-    N = 1500 if q else 60000
+    N = 1500 if q else 30000
     for i in range(N):
         c = rng.random()
         if c < 0.25: yield ('prime', rng.getrandbits(rng.randint(1, 64)), 'rand', rng.getrandbits(32))
